@@ -12,6 +12,7 @@ import (
 
 	"verifharness/vlib"
 
+	"github.com/lesismal/nbio/mempool"
 	"github.com/lesismal/nbio/nbhttp"
 	"pgregory.net/rapid"
 )
@@ -31,6 +32,12 @@ type Case struct {
 }
 
 var inline = func(f func()) { f() }
+
+// the tracking allocator records the largest buffer the parser asks for ("retained" is not only the
+// length of the carry-over buffer but also the capacity allocated for it)
+var tracker = vlib.NewTracker()
+
+func init() { mempool.DefaultMemPool = tracker }
 
 func cachedLen(p *nbhttp.Parser) (int, bool) {
 	v := reflect.ValueOf(p).Elem().FieldByName("bytesCached")
@@ -134,6 +141,7 @@ func runCase(c Case) vlib.Result {
 	if c.Class != "" {
 		res.Classes = append(res.Classes, "malformed="+c.Class)
 	}
+	tracker.Reset()
 	done := make(chan outcome, 1)
 	go func() { done <- execute(c) }()
 	var o outcome
@@ -150,6 +158,18 @@ func runCase(c Case) vlib.Result {
 	if o.violation != nil {
 		res.Err = o.violation
 		return res
+	}
+	if c.ReadLimit > 0 {
+		maxSeg := 0
+		for _, sg := range vlib.Split(c.Stream, c.Cuts) {
+			if len(sg) > maxSeg {
+				maxSeg = len(sg)
+			}
+		}
+		if bound := c.ReadLimit + maxSeg + 2048; tracker.PeakReq > bound {
+			res.Err = fmt.Errorf("the parser asked the allocator for a buffer of %d bytes; ReadLimit is %d and the largest read %d bytes (bound %d): memory retained for an incomplete message is not bounded by the read limit", tracker.PeakReq, c.ReadLimit, maxSeg, bound)
+			return res
+		}
 	}
 	if c.MaxBody > 0 && o.maxBodySeen > c.MaxBody {
 		res.Err = fmt.Errorf("a body of %d bytes was delivered although MaxHTTPBodySize is %d", o.maxBodySeen, c.MaxBody)
@@ -467,7 +487,53 @@ func genOversize(t *rapid.T) Case {
 	return c
 }
 
+// genHuge: valid framing metadata that announces far more than will ever arrive (and far more than
+// the limits allow): a huge Content-Length or chunk size followed by a few body bytes, the head and the
+// body arriving in different reads.
+func genHuge(t *rapid.T) Case {
+	c := Case{Kind: "oversize", Client: rapid.IntRange(0, 3).Draw(t, "client") == 0}
+	c.ReadLimit = rapid.SampledFrom([]int{64, 1000, 4096, 65536, 0}).Draw(t, "readlimit")
+	c.MaxBody = rapid.SampledFrom([]int{0, 100, 65536}).Draw(t, "maxbody")
+	huge := rapid.SampledFrom([]string{"70000", "16777216", "2147483648", "1099511627776", "281474976710656", "4611686018427387903"}).Draw(t, "huge")
+	b := &builder{}
+	if c.Client {
+		b.line("HTTP/1.1 200 OK", "")
+	} else {
+		b.line("POST /upload HTTP/1.1", "")
+		b.line("Host: example.com", "")
+	}
+	chunked := rapid.Bool().Draw(t, "chunked")
+	if chunked {
+		b.line("Transfer-Encoding: chunked", "")
+		b.crlf("")
+	} else {
+		b.line("Content-Length: "+huge, "")
+		b.crlf("")
+	}
+	headEnd := len(b.b)
+	if chunked {
+		n, _ := strconv.ParseInt(huge, 10, 64)
+		b.line(strconv.FormatInt(n, 16), "")
+	}
+	sizeEnd := len(b.b)
+	b.w(strings.Repeat("x", rapid.IntRange(1, 300).Draw(t, "bodybytes")))
+	c.Stream = b.b
+	c.Cuts = []int{headEnd}
+	if sizeEnd > headEnd {
+		c.Cuts = append(c.Cuts, sizeEnd)
+	}
+	for i := sizeEnd + rapid.IntRange(1, 50).Draw(t, "step"); i < len(c.Stream); i += rapid.IntRange(1, 100).Draw(t, "step2") {
+		c.Cuts = append(c.Cuts, i)
+	}
+	c.Classes = append(c.Classes, "huge-declared-length="+huge, fmt.Sprintf("readlimit=%d", c.ReadLimit))
+	c.Preview = vlib.Preview(c.Stream, 160)
+	return c
+}
+
 func gen(t *rapid.T) Case {
+	if rapid.IntRange(0, 11).Draw(t, "hugecase") == 0 {
+		return genHuge(t)
+	}
 	switch rapid.IntRange(0, 9).Draw(t, "kind") {
 	case 0, 1:
 		c := Case{Kind: "random", Client: rapid.IntRange(0, 3).Draw(t, "client") == 0}
